@@ -886,7 +886,18 @@ func (g *gen) silent() {
 		nq = pick(g.r, []string{"q=n1", "q=n2"})
 	}
 	if tr := g.w.truth.get(name, nq); tr != nil && !tr.deleted {
-		g.mutate(tr, nil)
+		if g.r.chance(1, 8) {
+			// the resource becomes empty: a reset re-fetch answered with {} / [] is a valid answer
+			// and must yield the delete actions / remove events
+			if d.kind == 'm' {
+				tr.model = map[string]aval{}
+			} else {
+				tr.coll = []aval{}
+			}
+			g.kinds["silent-clear"]++
+		} else {
+			g.mutate(tr, nil)
+		}
 		g.kinds["silent"]++
 		g.w.steps = append(g.w.steps, stepRec{Stim: "# silent mutation of " + name + "?" + nq})
 	}
@@ -1494,6 +1505,8 @@ func runHistory(p profile, seed uint64, index int, keepSteps bool, wantSnap bool
 	if len(g.liveClients()) > 0 {
 		w.publish("system.reset", `{"resources":[">"]}`)
 		g.drain()
+		// every cached resource has just been re-fetched and answered with the current state
+		w.cacheFresh = true
 	}
 	w.steps = append(w.steps, stepRec{Stim: "# end of history: quiescent, every request answered"})
 	if crashLog != nil {
